@@ -18,6 +18,7 @@ mod props_conc;
 mod rng;
 mod rope_prog;
 mod runner;
+mod selftest;
 mod sched;
 mod spec;
 mod strict;
@@ -219,6 +220,9 @@ fn main() {
         println!("VIOLATION-CANDIDATE kind={} detail={}", v.kind, v.detail);
       }
       std::process::exit(if res.violations.is_empty() { 0 } else { 1 });
+    }
+    "selftest" => {
+      std::process::exit(selftest::run());
     }
     "case" => {
       // case <PROP> <seed> <index>: print the explicit case of a run
